@@ -103,10 +103,18 @@ func (m *Models) Handlers() (map[string]*ssa.Function, error) {
 		if _, isSig := nt.Underlying().(*types.Signature); !isSig || nt.Obj().Pkg() != p.Pkg.Types {
 			continue
 		}
+		// the command table is keyed by the command token (a string); other tables of functions (e.g. a state
+		// machine keyed by a state constant) are not handler tables. Among several, the largest one is the table.
+		if kb, isBasic := mt.Key().Underlying().(*types.Basic); !isBasic || kb.Kind() != types.String {
+			continue
+		}
 		if e := p.globalInit(g.Name()); e != nil {
 			if init != nil {
-				m.handlerErr = fmt.Errorf("more than one handler-table-shaped global (%s, %s)", name, g.Name())
-				return nil, m.handlerErr
+				k1, _, ok1 := p.stringKeyedLiteral(init)
+				k2, _, ok2 := p.stringKeyedLiteral(e)
+				if ok1 && (!ok2 || len(k1) >= len(k2)) {
+					continue
+				}
 			}
 			init, name = e, g.Name()
 		}
